@@ -81,25 +81,22 @@ class Prop:
 
 
 def seg_match(segs, text):
-    """does `text` equal the concatenation of the segments, each optional segment kept whole or dropped?"""
-    import functools, sys
-    sys.setrecursionlimit(100000)
-    n = len(segs)
-
-    @functools.lru_cache(maxsize=None)
-    def go(i, pos):
-        if i == n:
-            return pos == len(text)
-        s = segs[i]["s"]
-        if text.startswith(s, pos) and go(i + 1, pos + len(s)):
-            return True
-        if segs[i]["opt"] and go(i + 1, pos):
-            return True
-        return False
-    try:
-        return go(0, 0)
-    except RecursionError:
-        return "".join(x["s"] for x in segs) == text
+    """does `text` equal the concatenation of the segments, each optional segment kept whole or dropped?
+    Iterative: the set of text positions reachable after each segment (no recursion: thorough-tier programs have thousands of
+    segments, and deep Python recursion ends in a segmentation fault, not in an exception)."""
+    pos = {0}
+    for sg in segs:
+        s = sg["s"]
+        nxt = set()
+        for p in pos:
+            if text.startswith(s, p):
+                nxt.add(p + len(s))
+            if sg["opt"]:
+                nxt.add(p)
+        if not nxt:
+            return False
+        pos = nxt
+    return len(text) in pos
 
 
 def out_of(x):
